@@ -114,6 +114,7 @@ pub enum Ev {
     OpResult { reg: usize, op: usize, res: String },
     Injected { reg: usize, inv: usize },
     Bail { idx: usize, kind: ErrKind },
+    BailEnd { idx: usize },
     Panic(String),
     Dropped,
 }
